@@ -5,7 +5,7 @@
    by the correspondence and the oracle only (see theorems.json). *)
 From Coq Require Import SpecFloat.
 Require Import Base Value Float PrintOptions ParseOptions Utf8 Reader Scan Num NumberOps Parser.
-Require Import ReaderProofs ScanProofs TokenProofs RoundtripProofs OptionProofs FrameProofs.
+Require Import ReaderProofs ScanProofs TokenProofs RoundtripProofs OptionProofs FrameProofs NumberToken.
 
 (* nil and t *)
 Theorem C08_nil : forall ro,
@@ -179,3 +179,36 @@ Example C08_nonvacuous :
   run elisp_ro (s2b ",@x") = POk (vlist [Symbol (s2b "unquote-splicing"); Symbol (s2b "x")]) /\
   run elisp_ro (s2b "1+") = POk (Symbol (s2b "1+")).
 Proof. vm_compute. repeat split; reflexivity. Qed.
+
+(* A token is read as a number only if the whole token is a numeric literal.
+   For every option set, source, fuel and dispatch byte: when the token
+   dispatcher returns a number n then either leading-digit symbols are enabled
+   and the WHOLE symbol token - scanned to its terminator - was accepted by the
+   literal parser with nothing left over (number_of_symbol: parse_num_literal
+   on the token's text, then end of text), or the literal parser returned n and
+   what follows is the end of the input or a delimiter, which is left in
+   place. So "1+", "12ab", "1.5.6", "0x10" never yield the number of their
+   numeric prefix: they are symbols (leading-digit symbols) or InvalidNumber. *)
+Theorem C08_number_whole_token : forall ro alpha fast std_parse fuel b r n r',
+  parse_token ro alpha fast std_parse fuel b r = (Ok (TNumber n), r') ->
+  (ro_digit ro = true /\ exists name, parse_symbol fuel r = (Ok name, r') /\
+                                     number_of_symbol fast std_parse fuel name = Some n) \/
+  (exists rs r1 radix pos, parse_num_literal fast std_parse fuel radix pos rs = (Ok n, r1) /\
+     (peek r1 = (Ok None, r') \/ exists c, peek r1 = (Ok (Some c), r') /\ is_delimiter c = true)).
+Proof.
+  intros ro alpha fast std_parse fuel b r n r' E.
+  exact (number_token_whole ro alpha fast std_parse fuel b r (TNumber n) r' E).
+Qed.
+Print Assumptions C08_number_whole_token.
+
+Example C08_number_whole_token_nonvacuous :
+  let digit_ro := {| ro_kw_prefix := false; ro_kw_postfix := false; ro_kw_octo := true; ro_nil := NsDefault; ro_t := TsDefault;
+                     ro_brackets := BrList; ro_string := StrR6RS; ro_char := ChrR6RS; ro_racket := false; ro_digit := true |} in
+  let run ro txt := from_trait ro (fun _ => true) true dec_to_f64 SrcSlice (bytes_events txt) in
+  (exists l c, run default_ro (s2b "1+") = PErr (XErr (ESyntax InvalidNumber l c))) /\
+  (exists l c, run default_ro (s2b "12ab") = PErr (XErr (ESyntax InvalidNumber l c))) /\
+  (exists l c, run default_ro (s2b "(1.5.6)") = PErr (XErr (ESyntax InvalidNumber l c))) /\
+  run default_ro (s2b "(12)") = POk (vlist [Number (PosInt 12)]) /\
+  run digit_ro (s2b "1+") = POk (Symbol (s2b "1+")) /\ run digit_ro (s2b "12ab") = POk (Symbol (s2b "12ab")) /\
+  run digit_ro (s2b "1.5.6") = POk (Symbol (s2b "1.5.6")) /\ run digit_ro (s2b "12") = POk (Number (PosInt 12)).
+Proof. cbv zeta. repeat split; try (eexists; eexists); vm_compute; reflexivity. Qed.
